@@ -114,7 +114,15 @@ pub fn run_probe(mode: &str, xdg: &Path, queries_file: &Path, env: &[(&str, Stri
         }
         None => Command::new(dbprobe_path()),
     };
-    cmd.arg(mode).arg(queries_file).env("XDG_DATA_HOME", xdg).env_remove("RUST_LOG").env_remove("ANYTHING_VERIF_CRASH");
+    let (mode, extra) = match mode.split_once(':') {
+        Some((m, x)) => (m, Some(x)),
+        None => (mode, None),
+    };
+    cmd.arg(mode).arg(queries_file);
+    if let Some(x) = extra {
+        cmd.arg(x);
+    }
+    cmd.env("XDG_DATA_HOME", xdg).env_remove("RUST_LOG").env_remove("ANYTHING_VERIF_CRASH");
     for (k, v) in env {
         cmd.env(k, v);
     }
@@ -130,7 +138,7 @@ pub fn run_probe(mode: &str, xdg: &Path, queries_file: &Path, env: &[(&str, Stri
 }
 
 pub fn run_check(ctx: &Ctx) {
-    ctx.set_rule("histories of sessions (repeated in-memory builds in this process, sequentially and concurrently from several threads; child processes pinned to 1, 2 and all CPUs, with and without a busy background load; a first on-disk build under a private XDG_DATA_HOME, a reopen of it, a rebuild over it after the stored hash was made stale) all answer the same query set (every typable fact's own words, every single word, every 1-7 character prefix of every word (all terms of the prefix n-gram index), sampled pairs of short prefixes, random word pairs); oracle: for every query all sessions return the same outcome (constant description, value, unit, source, tokens, or the same error); non-trivial = queries whose words are all carried by >= 2 shipped constants; distinct by query text; an evaluation is one (session, query) answer");
+    ctx.set_rule("histories of sessions (repeated in-memory builds in this process, sequentially and concurrently from several threads; child processes pinned to 1, 2 and all CPUs, with and without a busy background load; cold child processes that open 2-16 in-memory sessions at the same moment; a first on-disk build under a private XDG_DATA_HOME, a reopen of it, a rebuild over it after the stored hash was made stale) all answer the same query set (every typable fact's own words, every single word, every 1-7 character prefix of every word (all terms of the prefix n-gram index), sampled pairs of short prefixes, random word pairs); oracle: for every query all sessions return the same outcome (constant description, value, unit, source, tokens, or the same error); non-trivial = queries whose words are all carried by >= 2 shipped constants; distinct by query text; an evaluation is one (session, query) answer");
     ctx.assume("the schedule of tantivy's indexing threads is sampled by repetition, CPU pinning and background load, not enumerated");
     let qs = query_set(ctx.tier, ctx.seed);
     let queries: Vec<String> = qs.iter().map(|q| q.0.clone()).collect();
@@ -203,6 +211,31 @@ pub fn run_check(ctx: &Ctx) {
                 }
                 let _ = ai;
             }
+        }
+    }
+    // cold processes in which several sessions are opened at the same moment (state shared between the
+    // sessions of one process, or a session that observes another one half-built, shows here)
+    let ncold = ctx.tier.pick(2usize, 12);
+    for rep in 0..ncold {
+        let threads = [4usize, 8, 2, 16][rep % 4];
+        match run_probe(&format!("memx:{}", threads), &work, &qfile, &[], None) {
+            Ok(lines) => {
+                let mut cur: Option<Session> = None;
+                for l in lines {
+                    if let Some(t) = l.strip_prefix("=== thread ") {
+                        if let Some(s) = cur.take() {
+                            sessions.push(s);
+                        }
+                        cur = Some(Session { name: format!("cold-concurrent#{}.{}of{}", rep, t, threads), answers: vec![] });
+                    } else if let Some(s) = cur.as_mut() {
+                        s.answers.push(l);
+                    }
+                }
+                if let Some(s) = cur.take() {
+                    sessions.push(s);
+                }
+            }
+            Err(e) => problems.push(format!("cold-concurrent#{}: {}", rep, e)),
         }
     }
     // on-disk: first build, reopen, rebuild over a stale hash, reopen again
